@@ -82,7 +82,9 @@ def cv_hull(p_S1_g_Tt, p_S2_g_Tt):
         hull = ConvexHull([(b, a) for a, b in ([(0.0, 0.0)] + points1 + points2)])
         hull_points = [(a, b) for b, a in hull.points[hull.vertices].tolist()]
         # generate resulting channel from vertices
-        hull_points = sorted([x for x in hull_points if x not in ((0, 0), (0.0, 0.0))])
+        # order along the upper hull: both coordinates are non-decreasing there, up to rounding noise
+        hull_points = sorted([x for x in hull_points if x not in ((0, 0), (0.0, 0.0))],
+                             key=lambda x: (r_prec(x[0]), r_prec(x[1])))
         diff_list = zip([(0.0, 0.0)] + hull_points[:-1], hull_points)
         return [(r_prec(n[0] - m[0]), r_prec(n[1] - m[1])) for m, n in diff_list]
     return [(1, 1)]
